@@ -17,8 +17,25 @@ the realisation is a bijection on atoms, so the model covers these histories unc
                   the no-dispatch forms occur in such a scenario).
 A scenario with "model": False uses dispatch forms the model cannot express (["pair", ...]: a
 dispatch dataset combining TWO options into a pair; aliases are pairs [a, b]); it is run through the
-implementation and the property's oracle only."""
+implementation and the property's oracle only.
+
+Round-3 families (same Coq terms; the realisation stays a bijection on the atoms):
+  * implementation atoms g >= 1000 are TWINS of atom g % 1000: their Python value is the same number in
+    another numeric type (float / bool / complex / Fraction / Decimal, `typed`), so the plain values
+    ("t", typed(g), ()) of twins compare == while being different values; an implementation descriptor
+    with "form": "value" is registered as a labrea Value (the only implementations with an __eq__ of
+    their own) wherever the operation hands an Evaluatable over (register, "obj" members).  The oracle
+    compares values type-aware (`same_val`), so a re-registration that is dropped, merged or skipped
+    because the new implementation "equals" the old one is a violation with a concrete input.
+  * "regvia": "overloads" in a scenario: registrations go through the dataset's public `overloads`
+    object (Overloaded.register) instead of Dataset.register.
+  * the "implement" style and an optional 5th element of "interface" name the public spelling used for
+    the definition: the decorators, a class statement with metaclass=Implementation / Interface
+    (types.new_class = what a class statement does), or a direct call of the metaclass."""
 import copy
+import types as pytypes
+from decimal import Decimal
+from fractions import Fraction
 
 import lib
 
@@ -59,6 +76,34 @@ def key(k):
     return f"K{k}"
 
 
+# implementation atoms: g < 1000 is realised as the int g; 1000 * t + n is the twin of n in numeric type t
+TWIN_TYPES = {1: float, 2: bool, 3: complex, 4: Fraction, 5: Decimal}
+
+
+def typed(g):
+    t, n = divmod(g, 1000)
+    return n if t == 0 else TWIN_TYPES[t](n)
+
+
+def untyped(x):
+    """inverse of `typed` (by the TYPE of the number, not by ==)"""
+    if type(x) is int:
+        return x
+    for t, ty in TWIN_TYPES.items():
+        if type(x) is ty:
+            return 1000 * t + int(x.real if ty is complex else x)
+    return -1
+
+
+def same_val(a, b):
+    """type-aware equality of results: 1, 1.0 and True are three different values"""
+    if type(a) is not type(b):
+        return False
+    if isinstance(a, tuple):
+        return len(a) == len(b) and all(same_val(x, y) for x, y in zip(a, b))
+    return a == b
+
+
 def val_enc(enc):
     """atom -> Python object in option-value position"""
     return tv if enc == "tuple" else pv
@@ -81,14 +126,16 @@ def akey(a):
 
 
 def _labrea():
-    from labrea import Option, abstractdataset, dataset, implements, interface
+    from labrea import Option, Value, abstractdataset, dataset, implements, interface
+    from labrea.interface import Implementation, Interface
     from labrea.application import FunctionApplication
     from labrea.conditional import SwitchError
     from labrea.dataset import Dataset
     from labrea.exceptions import EvaluationError, KeyNotFoundError
     return dict(Option=Option, dataset=dataset, abstractdataset=abstractdataset, interface=interface,
                 implements=implements, FunctionApplication=FunctionApplication, SwitchError=SwitchError,
-                EvaluationError=EvaluationError, KeyNotFoundError=KeyNotFoundError, Dataset=Dataset)
+                EvaluationError=EvaluationError, KeyNotFoundError=KeyNotFoundError, Dataset=Dataset,
+                Value=Value, Implementation=Implementation, Interface=Interface)
 
 
 # ----------------------------------------------------------------------------- dispatch forms
@@ -142,10 +189,11 @@ def ref_dispatch(e, o):
 class World:
     """Live labrea objects for one scenario, built through the public API only."""
 
-    def __init__(self, L, impls, enc=None):
+    def __init__(self, L, impls, enc=None, regvia=None):
         self.L = L
         self.impls = {int(g): d for g, d in impls.items()}
         self.enc = enc
+        self.regvia = regvia           # None: Dataset.register; "overloads": the dataset's public Overloaded object
         self.val = val_enc(enc)        # atom -> object in option-value position
         self.alias = alias_enc(enc)    # atom -> object in alias position
         self.D = {}
@@ -172,7 +220,7 @@ class World:
             pairs = tuple((k, v) for (k, _), v in zip(reads, vals))
             if bad is not None and (bad[0], val(bad[1])) in pairs:
                 raise RuntimeError("body raises on this value")
-            return ("t", g, pairs)
+            return ("t", typed(g), pairs)
 
         if len(reads) == 0:
             def body():
@@ -192,7 +240,7 @@ class World:
 
     def plain_value(self, g):
         assert not self.impls[g]["reads"] and not self.impls[g].get("bad")
-        return ("t", g, ())
+        return ("t", typed(g), ())
 
     def callback(self, c):
         events = self.events
@@ -220,7 +268,10 @@ class World:
             return self.D[i[1]]
         g = i[1]
         if g not in self.fobj:
-            self.fobj[g] = self.L["FunctionApplication"].lift(self.body(g))
+            if self.impls[g].get("form") == "value":     # a plain labrea Value (compares == to the Value of a twin)
+                self.fobj[g] = self.L["Value"](self.plain_value(g))
+            else:
+                self.fobj[g] = self.L["FunctionApplication"].lift(self.body(g))
             self.label(self.fobj[g], f"f{g}")
         return self.fobj[g]
 
@@ -293,7 +344,10 @@ class World:
             return "ok"
         if k == "register":
             _, d, a, i = op
-            self.D[d].register(self.alias(a), self.impl_obj(i))
+            if self.regvia == "overloads":
+                self.D[d].overloads.register(self.alias(a), self.impl_obj(i))
+            else:
+                self.D[d].register(self.alias(a), self.impl_obj(i))
             return "ok"
         if k in ("overload", "overload_ds"):
             d, als = op[1], op[2]
@@ -321,7 +375,8 @@ class World:
         if k == "eval":
             return self.show_eval(self.do_eval(op[1], op[2]))
         if k == "interface":
-            _, i, e, ms = op
+            _, i, e, ms = op[:4]
+            istyle = op[4] if len(op) > 4 else None
             ns = {}
             ann = {}
             for n, kind, d, g in ms:
@@ -337,8 +392,14 @@ class World:
             if ann:
                 ns["__annotations__"] = ann
             self.counter += 1
-            cls = type(f"Iface{i}_{self.counter}", (), ns)
-            iface = L["interface"](self.disp_obj(e, allow_str=True))(cls)
+            if istyle == "metaclass":      # class Iface(metaclass=Interface, dispatch=...): <members>
+                iface = pytypes.new_class(f"Iface{i}_{self.counter}", (), dict(metaclass=L["Interface"], dispatch=self.disp_obj(e)),
+                                          lambda body_ns: body_ns.update(ns))
+            elif istyle == "call":
+                iface = L["Interface"](f"Iface{i}_{self.counter}", (), dict(ns), self.disp_obj(e))
+            else:
+                cls = type(f"Iface{i}_{self.counter}", (), ns)
+                iface = L["interface"](self.disp_obj(e, allow_str=True))(cls)
             self.I[i] = iface
             self.keep.append(iface)
             for n, kind, d, g in ms:
@@ -365,7 +426,14 @@ class World:
             self.counter += 1
             cls = type(f"Impl_{self.counter}", (), ns)
             try:
-                if len(ifs) == 1 and style != "implements":
+                if style == "metaclass":   # class Impl(metaclass=Implementation, interfaces=(...), aliases=(...)): <members>
+                    impl = pytypes.new_class(f"Impl_{self.counter}", (), dict(metaclass=L["Implementation"], interfaces=tuple(self.I[i] for i in ifs),
+                                                                               aliases=tuple(self.alias(a) for a in als)),
+                                             lambda body_ns: body_ns.update(ns))
+                elif style == "call":      # Implementation(name, bases, namespace, interfaces, aliases)
+                    impl = L["Implementation"](f"Impl_{self.counter}", (), dict(ns), tuple(self.I[i] for i in ifs),
+                                               tuple(self.alias(a) for a in als))
+                elif len(ifs) == 1 and style != "implements":
                     impl = self.I[ifs[0]].implementation(alias)(cls)
                 else:
                     impl = L["implements"](*[self.I[i] for i in ifs], alias=alias)(cls)
@@ -409,7 +477,7 @@ class World:
     @staticmethod
     def show_val(v):
         if isinstance(v, tuple) and len(v) == 3 and v[0] == "t":
-            return f"t{v[1]}[" + ",".join(f"{k}={atom(x)}" for k, x in v[2]) + "]"
+            return f"t{untyped(v[1])}[" + ",".join(f"{k}={atom(x)}" for k, x in v[2]) + "]"
         if isinstance(v, tuple) and len(v) == 3 and v[0] == "cb":
             return f"cb{v[1]}({World.show_val(v[2])})"
         return "?" + type(v).__name__
@@ -503,7 +571,7 @@ class Ref:
                                   preset={**b["preset"], **{kk: v for kk, v in op[3]}}, cache=b["cache"])
             return "ok"
         if k == "interface":
-            _, i, e, ms = op
+            _, i, e, ms = op[:4]
             for n, kind, d, g in ms:
                 if kind == "abstract":
                     self.new(d, e, None, None)
@@ -544,7 +612,7 @@ class Ref:
         bad = dsc.get("bad")
         if bad and (bad[0], self.val(bad[1])) in pairs:
             return ("e",), (tuple(i),)
-        return ("v", ("t", i[1], tuple(pairs))), (tuple(i),)
+        return ("v", ("t", typed(i[1]), tuple(pairs))), (tuple(i),)
 
     def eval(self, d, o, nested=None):
         """(('v', value) | ('e',), dispatch outcome, effective options, resolution chain)"""
@@ -660,7 +728,7 @@ def verify(ref, w, impls, legit, missed, d, o, actual, new_recs, taints, top=Tru
     if impl is None:
         impl = x["default"]
     if w.cache_label[d] not in missed:
-        recs = [r for r in legit.get(x["cache"], []) if r["value"] == actual]
+        recs = [r for r in legit.get(x["cache"], []) if same_val(r["value"], actual)]
         same = [r for r in recs if r["outcome"] == out]
         if not recs and not top:
             return dict(zone=None, dataset=d,
@@ -697,7 +765,7 @@ def verify(ref, w, impls, legit, missed, d, o, actual, new_recs, taints, top=Tru
         return dict(zone=None, dataset=d, desc="a callback was applied that the dataset does not have")
     if impl[0] == "f":
         exp, _ = ref.run_impl(impl, o2, None)
-        if exp[0] != "v" or exp[1] != inner:
+        if exp[0] != "v" or not same_val(exp[1], inner):
             return dict(zone=None, dataset=d, expected=World.show_val(exp[1]) if exp[0] == "v" else "failure",
                         desc="computed value is not callback(implementation registered for the current dispatch value / default)")
     else:
@@ -712,7 +780,7 @@ def verify(ref, w, impls, legit, missed, d, o, actual, new_recs, taints, top=Tru
 def run_impl(L, sc):
     """implementation observations (one string per op) + the oracle's candidate violations"""
     impls = {int(g): d for g, d in sc["impls"].items()}
-    w = World(L, impls, sc.get("enc"))
+    w = World(L, impls, sc.get("enc"), sc.get("regvia"))
     ref = Ref(impls, w.val)
     lines = []
     cands = []   # dicts: op index, desc, zone ('D19'|'D22'|None), detail
@@ -855,8 +923,12 @@ PAIR_VALS = [1, 2, 3]
 
 
 class Gen:
-    def __init__(self, rng, zone=None, enc=None, own=False, pair=False):
+    def __init__(self, rng, zone=None, enc=None, own=False, pair=False, eqval=False, styles=False):
         self.rng = rng
+        self.eqval = eqval         # plain-value implementations that compare == to one another (twins), re-registered under the same alias
+        self.styles = styles       # every public spelling of a definition (decorators, metaclass in a class statement, metaclass called)
+        self.last_value = {}       # member name -> atom of the plain value some implementation class last provided for it
+        self.last_aliases = None   # (interfaces, aliases) of the last implementation class
         self.zone = zone           # None | 'D19' | 'D22'
         self.enc = enc             # None | 'tuple' | 'tupleds' (realisation of the atoms, see the module docstring)
         self.own = own             # interface members declared as datasets that already carry a dispatch of their own
@@ -875,11 +947,35 @@ class Gen:
         self.derived = set()
 
     # --- helpers
-    def new_impl(self, plain=False, simple=False):
+    def twin_of(self, g0, value=False):
+        """a new implementation atom whose plain value compares == to that of g0 (same number, another numeric type)"""
+        n = g0 % 1000
+        free = [t for t in [0, 1, 3, 4, 5] + ([2] if n == 1 else []) if 1000 * t + n not in self.impls and 1000 * t + n != g0]
+        if not free:
+            return None
+        g = 1000 * self.rng.choice(free) + n
+        d = dict(reads=[], bad=None)
+        if value:
+            d["form"] = "value"
+        self.impls[g] = d
+        self.ref.impls[g] = d
+        return g
+
+    def plain_atoms(self):
+        return sorted(g for g, d in self.impls.items() if not d["reads"] and not d.get("bad"))
+
+    def new_impl(self, plain=False, simple=False, value=False):
+        if self.eqval and plain and self.rng.random() < 0.6:
+            cand = self.plain_atoms()
+            g = self.twin_of(self.rng.choice(cand), value) if cand else None
+            if g is not None:
+                return g
         g = self.next_g
         self.next_g += 1
         if plain:
             d = dict(reads=[], bad=None)
+            if value:
+                d["form"] = "value"
         elif simple:
             d = copy.deepcopy(self.rng.choice(IMPL_SHAPES[:4]))
         else:
@@ -1049,10 +1145,47 @@ class Gen:
     def some_impl(self, d):
         """an implementation to register on d: a lifted function or an existing dataset"""
         rng = self.rng
+        if self.eqval and rng.random() < 0.6:
+            return ["f", self.new_impl(plain=True, value=True)]     # d.register(alias, Value(...))
         cands = [x for x in self.ref.ds if x != d and self.can_register(d, x)]
         if cands and rng.random() < 0.3:
             return ["d", rng.choice(cands)]
         return ["f", self.new_impl()]
+
+    def options_for_alias(self, d, a):
+        """a dictionary under which the dispatch of d reads the value a"""
+        o = [p for p in self.options(d) if p[0] not in disp_keys(self.ref.ds[d]["disp"])]
+        e = self.ref.ds[d]["disp"]
+        if e[0] not in ("missing", "pair"):
+            o.append((e[1], a))
+        return sorted(o)
+
+    def op_reregister_equal(self, d):
+        """register a plain Value under an alias, then (possibly after other operations) ANOTHER Value that
+        compares == to it under the same alias; evaluate under that alias: the last registration wins"""
+        rng = self.rng
+        x = self.ref.ds[d]
+        if x["disp"][0] in ("missing", "pair"):
+            return
+        cur = [a for a, i in x["tbl"].items() if i[0] == "f" and not isinstance(a, tuple) and i[1] in self.plain_atoms()]
+        if cur and rng.random() < 0.5:
+            a = rng.choice(cur)
+            g1 = x["tbl"][a][1]
+        else:
+            a = rng.choice(VALS)
+            g1 = self.new_impl(plain=True, value=True)
+            self.emit(["register", d, a, ["f", g1]])
+            if rng.random() < 0.3:
+                other = rng.choice(VALS)
+                self.eval_op(d, self.options_for_alias(d, other))
+        for _ in range(rng.choice([1, 1, 2])):
+            g2 = self.twin_of(g1, value=True)
+            if g2 is None:
+                break
+            self.emit(["register", d, a, ["f", g2]])
+            if rng.random() < 0.8:
+                self.eval_op(d, self.options_for_alias(d, a))
+            g1 = g2
 
     def op_register(self, d):
         rng = self.rng
@@ -1141,7 +1274,10 @@ class Gen:
                 ms.append([n, "default", self.fresh_ds(), self.new_impl()])
             else:
                 ms.append([n, "value", self.fresh_ds(), self.new_impl(plain=True)])
-        self.emit(["interface", i, e, ms])
+        if self.styles:
+            self.emit(["interface", i, e, ms, rng.choice(["decorator", "metaclass", "call"])])
+        else:
+            self.emit(["interface", i, e, ms])
         for m in ms:
             self.frozen.add(m[2])
         return i
@@ -1155,12 +1291,26 @@ class Gen:
             for n, d in self.ref.ifs[i]["members"]:
                 names.setdefault(n, []).append(d)
         mode = mode or rng.choice(["good", "good", "good", "missing", "unknown"])
+        again = None
+        if self.eqval and self.last_aliases and set(self.last_aliases[0]) <= set(ifs_all) and rng.random() < 0.6:
+            # the same interfaces implemented AGAIN under the same aliases: members given as plain values get twins
+            ifs, again = list(self.last_aliases[0]), list(self.last_aliases[1])
+            names = {}
+            for i in ifs:
+                for n, d in self.ref.ifs[i]["members"]:
+                    names.setdefault(n, []).append(d)
         prov = []
         for n, dl in names.items():
             abstract = any(self.ref.abstract(d) for d in dl)
             if abstract or rng.random() < 0.5:
                 r = rng.random()
-                if r < 0.45:
+                if self.eqval and r < 0.75:
+                    g = self.twin_of(self.last_value[n]) if (n in self.last_value and rng.random() < 0.8) else None
+                    if g is None:
+                        g = self.new_impl(plain=True)
+                    self.last_value[n] = g
+                    prov.append([n, ["f", g], "value"] if rng.random() < 0.7 else [n, ["f", self.value_form(g)], "obj"])
+                elif r < 0.45:
                     prov.append([n, ["f", self.new_impl()], "func"])
                 elif r < 0.65:
                     prov.append([n, ["f", self.new_impl(plain=True)], "value"])
@@ -1183,8 +1333,25 @@ class Gen:
             prov.append([self.next_name + 50, ["f", self.new_impl()], "func"])
         rng.shuffle(prov)
         als = self.aliases_for(self.ref.ifs[ifs[0]]["disp"], rng.choice([1, 1, 2]))
+        if again is not None:
+            als = again
         style = rng.choice(["single", "list", "implements"])
+        if self.styles:
+            style = rng.choice(["single", "list", "implements", "metaclass", "metaclass", "call", "call"])
         self.emit(["implement", ifs, als, prov, style])
+        if self.eqval:
+            self.last_aliases = (list(ifs), list(als))
+            if self.ref.expect(self.ops[-1]) == "ok" and not isinstance(als[0], list) and rng.random() < 0.8:
+                a = rng.choice(als)
+                for i in ifs:
+                    o = self.options_for_alias(self.ref.ifs[i]["members"][0][1], a)
+                    for n, d in self.ref.ifs[i]["members"]:
+                        self.eval_op(d, o, grp=i)
+
+    def value_form(self, g):
+        """mark a plain implementation atom as realised by a labrea Value object (class attribute = Value(...))"""
+        self.impls[g]["form"] = "value"
+        return g
 
     def eval_members(self, i):
         itf = self.ref.ifs[i]
@@ -1201,7 +1368,9 @@ class Gen:
             d = rng.choice([x for x in self.ref.ds])
             top = rng.choice(bases + [x for x in self.ref.ds if x in self.derived] + bases)
             r = rng.random()
-            if r < 0.12:
+            if self.eqval and rng.random() < 0.3:
+                self.op_reregister_equal(rng.choice(bases))
+            elif r < 0.12:
                 self.op_register(rng.choice(bases))
             elif r < 0.30:
                 self.op_overload(rng.choice(bases))
@@ -1244,7 +1413,10 @@ class Gen:
                 self.probe(d)
             elif r < 0.82:
                 n, d = rng.choice(self.ref.ifs[i]["members"])
-                self.op_register(d)
+                if self.eqval and rng.random() < 0.5:
+                    self.op_reregister_equal(d)
+                else:
+                    self.op_register(d)
             elif r < 0.88:
                 n, d = rng.choice(self.ref.ifs[i]["members"])
                 self.op_overload(d)
@@ -1286,6 +1458,8 @@ class Gen:
             sc["enc"] = self.enc
         if self.pair:
             sc["model"] = False
+        if self.eqval and self.rng.random() < 0.3:
+            sc["regvia"] = "overloads"
         return sc
 
 
@@ -1301,6 +1475,10 @@ def gen_scenario(rng, profile):
         g = Gen(rng, enc=rng.choice([None, None, "tuple"]), own=True)
     elif profile in ("pair", "interface_pair"):   # two-option composite dispatch values; oracle-only
         g = Gen(rng, pair=True, own=rng.random() < 0.4)
+    elif profile in ("eqval", "interface_eqval"):  # ==-equal plain values re-registered; every spelling of a definition
+        g = Gen(rng, eqval=True, styles=rng.random() < 0.5, enc=rng.choice([None, None, "tuple"]))
+    elif profile == "interface_meta":             # definitions through the metaclasses (class statement / direct call)
+        g = Gen(rng, styles=True, own=rng.random() < 0.3, enc=rng.choice([None, None, "tuple"]))
     else:
         g = Gen(rng, zone)
     n = rng.randint(5, 30)
@@ -1453,6 +1631,75 @@ def fixed_scenarios_families():
     return out
 
 
+def fixed_scenarios_r3():
+    """One always-run representative per input family added in round 3 (the random streams 'eqval',
+    'interface_eqval', 'interface_meta' draw from the same families)."""
+    rd = dict(reads=[[10, None]], bad=None)
+    pl = dict(reads=[], bad=None)
+    va = dict(reads=[], bad=None, form="value")
+    out = []
+    # an alias re-registered with a Value that compares == to the registered one (int -> float -> complex;
+    # 1 -> True): the LAST registration is the one evaluated; through Dataset.register and through the
+    # dataset's public Overloaded object; scalar and tuple aliases
+    for regvia, enc, e in ((None, None, ["key", 20, "str"]), ("overloads", None, ["keydef", 20, 5]), (None, "tuple", ["key", 20, "opt"]),
+                           ("overloads", "tuple", ["keydom", 20, None, [3, 5, 6]])):
+        sc = dict(profile="fixed:eqval", impls={"1": rd, "2": dict(va), "1002": dict(va), "3002": dict(va), "3": dict(va), "4003": dict(va),
+                                                "5": dict(va), "1": rd, "6": dict(va), "2006": dict(va)}, ops=[
+            ["new", 1, e, ["f", 1], 7],
+            ["register", 1, 5, ["f", 2]], ["register", 1, 6, ["f", 3]],
+            ["register", 1, 5, ["f", 1002]],
+            ["eval", 1, [[10, 1], [20, 5]], None], ["eval", 1, [[10, 1], [20, 6]], None],
+            ["register", 1, 6, ["f", 4003]], ["register", 1, 5, ["f", 3002]],
+            ["eval", 1, [[10, 2], [20, 5]], None], ["eval", 1, [[10, 2], [20, 6]], None], ["eval", 1, [[10, 2], [20, 3]], None],
+            ["new", 2, e, None, None],
+            ["register", 2, 3, ["f", 2]], ["register", 2, 3, ["f", 3002]], ["register", 2, 3, ["f", 1002]],
+            ["eval", 2, [[20, 3]], None], ["eval", 2, [[20, 6]], None],
+        ])
+        sc["impls"].pop("6"), sc["impls"].pop("2006")
+        if regvia:
+            sc["regvia"] = regvia
+        if enc:
+            sc["enc"] = enc
+        out.append(sc)
+    # 1 -> True -> 1.0 under one alias, evaluated between the registrations under ANOTHER alias only
+    out.append(dict(profile="fixed:eqval", impls={"1": dict(va), "2001": dict(va), "1001": dict(va), "2": rd}, ops=[
+        ["new", 1, ["key", 20, "str"], ["f", 2], None],
+        ["register", 1, 5, ["f", 1]], ["eval", 1, [[10, 1], [20, 6]], None],
+        ["register", 1, 5, ["f", 2001]], ["eval", 1, [[10, 1], [20, 5]], None],
+        ["register", 1, 6, ["f", 1]], ["register", 1, 6, ["f", 1001]], ["eval", 1, [[10, 3], [20, 6]], None],
+    ]))
+    # an interface implemented again under the same alias with members given as ==-equal plain values (class
+    # attribute 1, then 1.0; a member default 1 implemented as True), by every spelling
+    for st1, st2 in (("single", "implements"), ("metaclass", "call"), ("list", "metaclass")):
+        out.append(dict(profile="fixed:eqval_interface", impls={"1": dict(pl), "2": dict(pl), "1002": dict(pl), "2001": dict(pl), "4002": dict(va), "3": rd}, ops=[
+            ["interface", 1, ["key", 20, "str"], [[101, "abstract", 1, None], [102, "value", 2, 1], [103, "default", 3, 3]]],
+            ["implement", [1], [5], [[101, ["f", 2], "value"]], st1],
+            ["implement", [1], [5], [[101, ["f", 1002], "value"], [102, ["f", 2001], "value"]], st2],
+            ["eval", 1, [[10, 1], [20, 5]], 1], ["eval", 2, [[10, 1], [20, 5]], 1], ["eval", 3, [[10, 1], [20, 5]], 1],
+            ["implement", [1], [5, 6], [[101, ["f", 4002], "obj"]], st2],
+            ["eval", 1, [[10, 2], [20, 6]], 1], ["eval", 2, [[10, 2], [20, 6]], 1], ["eval", 1, [[10, 1], [20, 5]], 1],
+        ]))
+    # definitions through the metaclasses: a class statement with metaclass=Implementation / a direct call that
+    # omits an abstract member or names an unknown one is rejected and registers nothing; complete ones register
+    for ist, s1, s2 in (("metaclass", "metaclass", "call"), ("call", "call", "metaclass"), ("decorator", "metaclass", "metaclass")):
+        out.append(dict(profile="fixed:meta", impls={str(g): rd for g in range(1, 9)}, ops=[
+            ["interface", 1, ["key", 20, "opt"], [[101, "abstract", 1, None], [102, "abstract", 2, None], [103, "default", 3, 3]], ist],
+            ["implement", [1], [5], [[101, ["f", 4], "func"], [103, ["f", 5], "func"]], s1],          # omits 102
+            ["eval", 3, [[10, 1], [20, 5]], 1], ["eval", 1, [[10, 1], [20, 5]], 1],
+            ["implement", [1], [6], [[102, ["f", 4], "func"]], s2],                                   # omits 101
+            ["implement", [1], [6], [[101, ["f", 4], "func"], [102, ["f", 5], "func"], [104, ["f", 6], "func"]], s2],   # unknown 104
+            ["eval", 2, [[10, 1], [20, 6]], 1], ["eval", 3, [[10, 1], [20, 6]], 1],
+            ["implement", [1], [5, 6], [[101, ["f", 4], "func"], [102, ["f", 5], "obj"]], s1],
+            ["eval", 1, [[10, 2], [20, 5]], 1], ["eval", 2, [[10, 2], [20, 6]], 1], ["eval", 3, [[10, 2], [20, 6]], 1],
+            ["interface", 2, ["keydef", 21, 5], [[101, "abstract", 4, None], [105, "abstract", 5, None]], ist],
+            ["implement", [1, 2], [2], [[101, ["f", 6], "func"], [102, ["f", 7], "func"]], s2],       # omits 105 of the second interface
+            ["eval", 1, [[10, 3], [20, 2]], 1], ["eval", 4, [[10, 3], [21, 2]], 2],
+            ["implement", [2, 1], [2], [[101, ["f", 6], "func"], [102, ["f", 7], "func"], [105, ["f", 8], "func"]], s1],
+            ["eval", 1, [[10, 3], [20, 2]], 1], ["eval", 4, [[10, 3], [21, 2]], 2], ["eval", 5, [[10, 3]], 2], ["eval", 5, [[10, 3], [21, 2]], 2],
+        ]))
+    return out
+
+
 def pair_scenarios():
     """Exhaustive small scope: every dispatch form x every ordered pair of dictionaries over
     {dispatch key absent / registered 5 / registered 6 / unregistered 3 / 4} x {K10 = 1, 2} x
@@ -1518,6 +1765,12 @@ def run(ctx):
     for profile, cnt in n2.items():
         for _ in range(cnt):
             scs.append(gen_scenario(rng, profile))
+    # round-3 input families (again generated after everything older)
+    scs += fixed_scenarios_r3()
+    n3 = dict(eqval=60, interface_eqval=60, interface_meta=60) if ctx.quick else dict(eqval=1200, interface_eqval=1200, interface_meta=1200)
+    for profile, cnt in n3.items():
+        for _ in range(cnt):
+            scs.append(gen_scenario(rng, profile))
     res = check_scenarios(ctx, L, scs, "Cases_C07")
     mism = [r["mismatch"] for r in res if r["mismatch"]]
     violations = [v for r in res for v in r["violations"]]
@@ -1537,7 +1790,8 @@ def run(ctx):
 
     dist = dict(profiles={}, ops={}, evals=0, hits=0, failing_evals=0, rejected_definitions=0, registrations=0,
                 lengths={}, zone_tagged={"D19": 0, "D22": 0}, encodings={}, oracle_only_scenarios=0,
-                bare_tuple_alias_overloads=0, members_with_own_dispatch=0)
+                bare_tuple_alias_overloads=0, members_with_own_dispatch=0,
+                twin_value_registrations=0, definitions_by_spelling={}, registrations_via_overloads_object=0)
     distinct = set()
     evaluations = 0
     for sc, r in zip(scs, res):
@@ -1546,6 +1800,15 @@ def run(ctx):
         dist["oracle_only_scenarios"] += 0 if sc.get("model", True) else 1
         own = {op[1] for op in sc["ops"] if op[0] == "new" and op[2][0] != "missing"}
         for op in sc["ops"]:
+            if op[0] == "register" and op[3][0] == "f" and op[3][1] >= 1000:
+                dist["twin_value_registrations"] += 1
+            if op[0] == "register" and sc.get("regvia"):
+                dist["registrations_via_overloads_object"] += 1
+            if op[0] == "implement":
+                dist["twin_value_registrations"] += sum(1 for pr in op[3] if pr[1][0] == "f" and pr[1][1] >= 1000)
+            if op[0] == "implement" or (op[0] == "interface" and len(op) > 4):
+                sp = f"{op[0]}:{op[4]}"
+                dist["definitions_by_spelling"][sp] = dist["definitions_by_spelling"].get(sp, 0) + 1
             if op[0] in ("overload", "overload_ds") and len(op[2]) == 1 and not op[-1] and (sc.get("enc") or isinstance(op[2][0], list)):
                 dist["bare_tuple_alias_overloads"] += 1
             if op[0] == "interface":
@@ -1575,7 +1838,9 @@ def run(ctx):
         "distinct_nontrivial": len(distinct),
         "rule": "histories of 5-30 operations (new dataset / register / @overload with single, list and stacked aliases / set_dispatch / "
                 "with_options / interface definition incl. members that already have a dispatch and registrations of their own / implementation incl. multi-interface and rejected ones / "
-                "evaluate, with stale-hit probes changing only the dispatch value; scalar and composite (tuple) dispatch values and aliases, bare and listed); "
+                "evaluate, with stale-hit probes changing only the dispatch value; scalar and composite (tuple) dispatch values and aliases, bare and listed; "
+                "plain-Value implementations that compare == to the one they replace (same number, another numeric type), compared type-aware; "
+                "interfaces and implementations defined by the decorators, by a class statement with the metaclass, or by calling the metaclass); "
                 "evaluations = operations run on both sides; a history is non-trivial when it has >= 2 "
                 "evaluations, >= 1 registration and >= 1 successful evaluation; distinct by hash of (implementation table, operations)",
         "samples": samples,
@@ -1590,6 +1855,7 @@ def run(ctx):
             "dispatch values and option values are hashable JSON scalars (ints / brace-free strings) or, in the 'tuple'/'tupleds'/'pair' streams, tuples of such scalars; option dictionaries are flat",
             "the 'tuple' and 'tupleds' realisations are bijections on the atoms, so the model term of such a history is the scalar one; the two-option dispatch form ('pair') has no model counterpart and is checked by the oracle only",
             "hit/miss of an evaluation is observed through a dataset effect (runs exactly when the value is computed)",
+            "twin implementation atoms (g >= 1000) are realised as the number g % 1000 in another numeric type; the model sees them as unrelated atoms, the oracle compares results type-aware, so 'the last registration wins' is checked even when the registered Values compare ==",
             "a dataset is never (transitively) registered as its own implementation (Python recurses forever; the model runs out of fuel)",
             "reference for with_options derivatives: they share the base's table object and cache; set_dispatch on either side unshares the table (the model records the sharing as the code has it)",
         ],
